@@ -123,7 +123,17 @@ def norm_tree(t):
 
 # ---------------------------------------------------------------- hook ops
 
-EXC = {'ValueError': ValueError, 'KeyError': KeyError, 'TypeError': TypeError,
+def raise_exc(name, msg):
+    """'ValueError' raises ValueError(msg); 'ValueError!' raises ValueError() (no arguments, like a bare
+    assert or `raise ValueError`); 'KeyError#' raises KeyError(5, 'x') (non-string arguments)"""
+    if name.endswith('!'):
+        raise EXC[name[:-1]]()
+    if name.endswith('#'):
+        raise EXC[name[:-1]](5, 'x')
+    raise EXC[name](msg)
+
+
+EXC = {'AssertionError': AssertionError, 'ValueError': ValueError, 'KeyError': KeyError, 'TypeError': TypeError,
        'SeasoningError': yatiml.SeasoningError, 'RecognitionError': yatiml.RecognitionError,
        'RuntimeError': RuntimeError, 'IndexError': IndexError, 'AttributeError': AttributeError}
 
@@ -180,7 +190,7 @@ def apply_node_op(node, op):
     elif k == 'get_attr':             # a savorize that reads an attribute (SeasoningError when absent)
         node.get_attribute(op[1])
     elif k == 'raise':
-        raise EXC[op[1]]('boom from hook')
+        raise_exc(op[1], 'boom from hook')
     else:
         raise ValueError(op)
 
@@ -206,7 +216,7 @@ def apply_unknown_op(unode, op, built):
     elif k == 'require_attr_value_not':
         unode.require_attribute_value_not(op[1], op[2])
     elif k == 'raise':
-        raise EXC[op[1]]('boom from recognize')
+        raise_exc(op[1], 'boom from recognize')
     else:
         raise ValueError(op)
 
@@ -256,7 +266,7 @@ def build(spec):
             def __init__(self, value: str, _r=c.get('raises')) -> None:
                 LOG.append(('init', type(self).__name__, {'value': value}))
                 if _r:
-                    raise EXC[_r]('boom from string-like ctor')
+                    raise_exc(_r, 'boom from string-like ctor')
                 self._v = value
             ns.update({'__init__': __init__, '__str__': lambda s: s._v, '__hash__': lambda s: hash(s._v),
                        '__eq__': lambda s, o: type(s) is type(o) and s._v == o._v,
@@ -264,7 +274,7 @@ def build(spec):
             cls = type(name, bases or (yatiml.String,), ns)
         else:
             params = [tuple(p) for p in c.get('params', [])]
-            g = {'__T': {}, 'LOG': LOG, 'EXC': EXC}
+            g = {'__T': {}, 'LOG': LOG, 'raise_exc': raise_exc}
             sig = ['self']
             body = ['    kw = {}']
             for i, p in enumerate(params):
@@ -287,7 +297,7 @@ def build(spec):
                             "_yatiml_extra if _yatiml_extra is not None else OrderedDict()")
             body.append("    self._kw = kw; LOG.append(('init', type(self).__name__, dict(kw)))")
             if c.get('raises'):
-                body.append('    raise EXC[%r]("boom from ctor")' % c['raises'])
+                body.append('    raise_exc(%r, "boom from ctor")' % c['raises'])
             src = 'def __init__(%s) -> None:\n%s\n' % (', '.join(sig), '\n'.join(body))
             exec(src, g)
             ns['__init__'] = g['__init__']
@@ -324,14 +334,14 @@ def _mk_strinit(base, raises):
     def __init__(self, value, _r=raises):
         LOG.append(('init', type(self).__name__, {'value': value}))
         if _r:
-            raise EXC[_r]('boom from string-like ctor')
+            raise_exc(_r, 'boom from string-like ctor')
         base.__init__(self, value)
     return __init__
 
 
 def _mk_strnew(raises):
     def __new__(cls, value):
-        raise EXC[raises]('boom from string-like ctor')
+        raise_exc(raises, 'boom from string-like ctor')
     return __new__
 
 
